@@ -29,6 +29,7 @@ const (
 	entryLexer  = 1
 	entryParse  = 2
 	entryReader = 3
+	entryWrite  = 4 // C13: write a workload as the first thing a fresh process does
 )
 
 // lexer option bits
@@ -141,6 +142,8 @@ func handleC10(req isolate.Req) isolate.Resp {
 		return isolate.Resp{Progress: p, Text: errText(err)}
 	case entryReader:
 		return readerEntry(req)
+	case entryWrite:
+		return writeEntry(req)
 	}
 	return isolate.Resp{Text: "harness: unknown entry"}
 }
@@ -219,13 +222,19 @@ func readerEntry(req isolate.Req) (resp isolate.Resp) {
 		resp.Flags |= 4
 		msg := &mcap.Message{}
 		meter.Do(func() {
+			// a caller that logs an error and asks again (a retry loop, a poller): the iterator may answer what it
+			// likes, but the process has to survive the question
+			failures := 0
 			for {
 				_, _, _, err := it.NextInto(msg)
 				if err != nil {
-					if !errors.Is(err, io.EOF) {
+					if failures == 0 && !errors.Is(err, io.EOF) {
 						texts = append(texts, "Next: "+errText(err))
 					}
-					break
+					if failures++; failures > 4 {
+						break
+					}
+					continue
 				}
 				resp.Progress++
 				if resp.Progress > 1<<26 {
